@@ -5,7 +5,7 @@
    [rec]/[wh] (how nested code and while$ loops are run) are universally quantified in the
    per-built-in laws; [exec n] / [while_loop n] are the instances the interpreter uses. *)
 From Pybtex Require Import Base.Prelude Base.PyChar Base.PyStr Model.BibtexStr Model.Wrap Model.Bst
-  Spec.BstSem Spec.BstTyping Proofs.Bst Proofs.BstSort Proofs.BstSem Proofs.BstLaws Proofs.BstTyping Proofs.BstOrder.
+  Spec.BstSem Spec.BstDoc Spec.BstTyping Proofs.Bst Proofs.BstSort Proofs.BstSem Proofs.BstLaws Proofs.BstTyping Proofs.BstOrder Proofs.BstDoc.
 From Coq Require Import Permutation Sorted.
 
 (* --- more fuel never changes the outcome of a run that ended (normally or with an error) *)
@@ -276,16 +276,39 @@ Print Assumptions write_newline_spec.
 (* --- the interpreter model computes exactly the documented big-step semantics (Spec/BstSem.v):
        whatever a run with some fuel returns is derivable, and every derivable run is found with
        enough fuel.  while$ and if$ are given there by inference rules, without fuel. *)
-Theorem exec_sound : forall fmt cw n st p st', exec fmt cw n st p = Ok st' -> bigsteps fmt cw st p st'.
+Theorem exec_sound : forall fmt cw n st p st', exec fmt cw n st p = Ok st' -> bigsteps fmt cw (model_simple fmt cw) st p st'.
 Proof. exact Proofs.BstSem.exec_sound. Qed.
 Print Assumptions exec_sound.
 
-Theorem exec_complete : forall fmt cw st p st', bigsteps fmt cw st p st' -> exists n, exec fmt cw n st p = Ok st'.
+Theorem exec_complete : forall fmt cw st p st', bigsteps fmt cw (model_simple fmt cw) st p st' -> exists n, exec fmt cw n st p = Ok st'.
 Proof. exact Proofs.BstSem.exec_complete. Qed.
 Print Assumptions exec_complete.
 
+(* --- the documented behaviour of the code-free built-ins (Spec/BstDoc.v: one rule per built-in, written from
+       the BibTeX documentation, for operands of the documented kinds) is what the model does in one step ... *)
+Theorem doc_step : forall fmt cw rec wh b st st',
+  builtin_doc fmt cw b st st' -> builtin_step fmt cw rec wh b st = Ok st'.
+Proof. exact Proofs.BstDoc.doc_step. Qed.
+Print Assumptions doc_step.
+
+(* conversely, on operands of the kinds the type checker accepts, a successful step of a code-free built-in IS an
+   instance of its documented rule: on well-typed operands the model and the documentation coincide step by step *)
+Theorem doc_sound_step : forall fmt cw G ent rec wh call b s s1 st st',
+  check_builtin G ent call b s = Some s1 -> control b = false ->
+  state_ok G ent st -> sabs (st_stack st) s ->
+  builtin_step fmt cw rec wh b st = Ok st' -> builtin_doc fmt cw b st st'.
+Proof. exact Proofs.BstDoc.doc_sound_step. Qed.
+Print Assumptions doc_sound_step.
+
+(* ... hence every run derivable in the big-step semantics over the documented rules (no reference to the
+   model's built-in code at all) is a run of the interpreter *)
+Theorem doc_complete : forall fmt cw st p st',
+  bigsteps fmt cw (builtin_doc fmt cw) st p st' -> exists n, exec fmt cw n st p = Ok st'.
+Proof. exact Proofs.BstDoc.doc_complete. Qed.
+Print Assumptions doc_complete.
+
 Theorem while_sound : forall fmt cw n st p f st',
-  while_loop fmt cw n st p f = Ok st' -> whilerel fmt cw st p f st'.
+  while_loop fmt cw n st p f = Ok st' -> whilerel fmt cw (model_simple fmt cw) st p f st'.
 Proof. exact Proofs.BstSem.while_sound. Qed.
 Print Assumptions while_sound.
 
@@ -500,7 +523,7 @@ Proof. vm_compute. reflexivity. Qed.
 
 (* a derivation in the big-step semantics: #1 { "t" } { "e" } if$ leaves "t" *)
 Example bigstep_example :
-  bigsteps fmt0 cw0 st0 [IInt 1; IFun [IStr (s2l "t")]; IFun [IStr (s2l "e")]; IId (s2l "if$")]
+  bigsteps fmt0 cw0 (model_simple fmt0 cw0) st0 [IInt 1; IFun [IStr (s2l "t")]; IFun [IStr (s2l "e")]; IId (s2l "if$")]
            (push (VStr (s2l "t")) st0).
 Proof.
   eapply exec_sound with (n := 10). vm_compute. reflexivity.
@@ -531,3 +554,13 @@ Example welltyped_run_example :
   option_map output_of (match exec fmt0 cw0 60 st prog1 with Ok s => Some s | _ => None end)
   = Some (s2l "ABA" ++ [c_nl]).
 Proof. vm_compute. reflexivity. Qed.
+
+(* a derivation over the documented rules: #2 #5 - leaves -3 *)
+Example doc_example :
+  bigsteps fmt0 cw0 (builtin_doc fmt0 cw0) st0 [IInt 2; IInt 5; IId (s2l "-")]
+           (set_stack (push (VInt 5) (push (VInt 2) st0)) [VInt (2 - 5)]).
+Proof.
+  eapply BS_cons; [apply BS_int|]. eapply BS_cons; [apply BS_int|]. eapply BS_cons; [|apply BS_nil].
+  eapply BS_builtin with (b := B_minus); [vm_compute; reflexivity|reflexivity|].
+  apply D_minus. reflexivity.
+Qed.
